@@ -153,8 +153,10 @@ SrvSend ==
   /\ UNCHANGED <<sc, lastId, lastSeq, open, stored, alive, keyHeld, storedHome, srvNow, resumed, bad>>
 
 Rotate == Is("Rotate") /\ srvNow' = Ev.salt /\ UNCHANGED <<resumed, keyHeld, home, storedHome, sc, lastId, lastSeq, open, frames, ans, toAck, sentIds, resend, wantSalt, stored, alive, judgeAcks, updates, bad>>
-SrvClose == Is("SrvClose") /\ judgeAcks' = FALSE
-            /\ UNCHANGED <<srvNow, resumed, keyHeld, home, storedHome, sc, lastId, lastSeq, open, frames, ans, toAck, sentIds, resend, wantSalt, stored, alive, updates, bad>>
+\* a hard close (reset) may destroy what the client has not read yet: updates pushed before it need not be surfaced any more
+\* (those that were read are surfaced all the same: Surfaced never counts below zero)
+SrvClose == Is("SrvClose") /\ judgeAcks' = FALSE /\ updates' = (IF Ev.hard THEN 0 ELSE updates)
+            /\ UNCHANGED <<srvNow, resumed, keyHeld, home, storedHome, sc, lastId, lastSeq, open, frames, ans, toAck, sentIds, resend, wantSalt, stored, alive, bad>>
 
 ConnOpen ==
   /\ Is("ConnOpen")
